@@ -24,16 +24,16 @@ import (
 )
 
 type result struct {
-	Sequences     int      `json:"sequences"`
-	Executions    int      `json:"executions"`
-	MaxLen        int      `json:"max_len"`
-	Reissued      int      `json:"ids_handed_out_again_after_release"`
-	Histories     int      `json:"concurrent_histories"`
-	HistoryOps    int      `json:"concurrent_operations"`
-	Overlapping   int      `json:"histories_with_overlapping_allocations"`
-	Unknown       int      `json:"checker_timeouts"`
-	Violations    []string `json:"violations"`
-	SampleSeq     []string `json:"sample_sequences"`
+	Sequences   int      `json:"sequences"`
+	Executions  int      `json:"executions"`
+	MaxLen      int      `json:"max_len"`
+	Reissued    int      `json:"ids_handed_out_again_after_release"`
+	Histories   int      `json:"concurrent_histories"`
+	HistoryOps  int      `json:"concurrent_operations"`
+	Overlapping int      `json:"histories_with_overlapping_allocations"`
+	Unknown     int      `json:"checker_timeouts"`
+	Violations  []string `json:"violations"`
+	SampleSeq   []string `json:"sample_sequences"`
 }
 
 // op: 0 = New, k>0 = Reuse(the k-th smallest held id)
